@@ -823,7 +823,7 @@ func TestC07(t *testing.T) {
 		}
 	})
 	rec.Set("faults_injected", injected.String())
-	if cases >= 300 {
+	if cases >= 250 {
 		for k := range applicable {
 			if injected.get(k) == 0 {
 				inconclusive(t, "fault kind %q was never injected in %d cases (%s)", k, cases, injected)
@@ -842,7 +842,11 @@ func TestC07_ListBelowMin(t *testing.T) {
 	rec := ev.Start(t, "C07")
 	witnessF27(rec)
 	witnessF1(rec)
-	for _, name := range []string{"vtu", "vtw"} {
+	names := []string{"vtu"}
+	if ev.Thorough() {
+		names = append(names, "vtw")
+	}
+	for _, name := range names {
 		v := variants.Get(name)
 		v.MustInit()
 		sch := v.FreshSchema()
